@@ -69,11 +69,16 @@ From PB Require LasOracle.
    (app)   the telegram an application handed over in this poll (last entry of the call log), from UseToken /
            AwaitDataResponse (time-out);
    (token) a token from this station: the claim token TS -> TS (after the silence time-out, or the second one
-           of the claim), or the token pass out of PassToken / AwaitStatusResponse (time-out) / CheckTokenPass (retry);
-   (gap)   an FDL status request of GAP maintenance: sent from PassToken{do_gap} or the post-claim scan, to an
-           address strictly inside the GAP, after which the station waits for the reply
-           (AwaitStatusResponse a / ClaimToken::ScanAwaitResponse a);
+           of the claim), or the token pass out of PassToken / AwaitStatusResponse (time-out) / CheckTokenPass (retry)
+           or - since the F20 repair (do_use_token ends in do_pass_token) - out of the token-use states UseToken /
+           AwaitDataResponse (time-out) in the very poll that finds nothing (more) to send;
+   (gap)   an FDL status request of GAP maintenance: sent from PassToken{do_gap}, from a token-use state in the poll
+           that finds nothing (more) to send (F20 repair), or from the post-claim scan, to an address strictly inside
+           the GAP, after which the station waits for the reply (AwaitStatusResponse a / ClaimToken::ScanAwaitResponse a);
    (reply) a status reply to the requester recorded in ListenToken / ActiveIdle.
+   In the last three cases no application has SENT anything in this poll: the call log consists of declined
+   transmit requests (and the time-out callback that may precede them), and is empty unless the poll began in a
+   token-use state (before the F20 repair: always empty).
    So a status request that is not an application's is always of kind (gap): "gap_request" below is
    complete as the definition of "the poll transmits a status request as part of GAP maintenance". *)
 Theorem C12_poll_transmissions : forall (A : Type) (ops : app_ops A) (f : fdl) (now : Z) (pin : phy_in) (apps : list A)
@@ -83,7 +88,9 @@ Theorem C12_poll_transmissions : forall (A : Type) (ops : app_ops A) (f : fdl) (
   (exists cs i hp er, calls = cs ++ [CallTransmit i hp (Some (wire, er))] /\
      (kind_of (f_state f) = KUseToken \/ kind_of (f_state f) = KAwaitDataResponse) /\
      (kind_of (f_state f') = KUseToken \/ kind_of (f_state f') = KAwaitDataResponse)) \/
-  (calls = [] /\
+  ((exists l, calls = l /\
+      Forall (fun c => match c with CallTransmit _ _ (Some _) => False | _ => True end) l /\
+      (l <> [] -> kind_of (f_state f) = KUseToken \/ kind_of (f_state f) = KAwaitDataResponse)) /\
    ((* token *)
     (exists da, wire = encode_token da (ts f) /\
        ((da = ts f /\
@@ -93,12 +100,15 @@ Theorem C12_poll_transmissions : forall (A : Type) (ops : app_ops A) (f : fdl) (
           (f_state f' = ClaimToken StepScan /\ f_state f = ClaimToken StepSecondToken))) \/
         ((f_state f' = UseToken now None false \/ exists att, f_state f' = CheckTokenPass att) /\
          (kind_of (f_state f) = KPassToken \/ kind_of (f_state f) = KAwaitStatusResponse \/
-          kind_of (f_state f) = KCheckTokenPass)))) \/
+          kind_of (f_state f) = KCheckTokenPass \/
+          (kind_of (f_state f) = KUseToken \/ kind_of (f_state f) = KAwaitDataResponse))))) \/
     (* gap *)
     (exists a, wire = encode (TData (status_request_header a (ts f)) []) /\ in_gap (ts f) (r_ns (f_ring f)) a /\
        ((0 <= ts f < p_hsa (f_p f) /\ (forall c, f_gap f = GapDoPoll c -> 0 <= c < p_hsa (f_p f))) -> 0 <= a < p_hsa (f_p f)) /\
        f_ring f' = f_ring f /\ f_gap f' = GapDoPoll a /\
-       ((f_state f' = AwaitStatusResponse a /\ exists att, f_state f = PassToken true att) \/
+       ((f_state f' = AwaitStatusResponse a /\
+         ((exists att, f_state f = PassToken true att) \/
+          (kind_of (f_state f) = KUseToken \/ kind_of (f_state f) = KAwaitDataResponse))) \/
         (f_state f' = ClaimToken (StepScanAwaitResponse a) /\
          (f_state f = ClaimToken StepScan \/ exists a0, f_state f = ClaimToken (StepScanAwaitResponse a0))))) \/
     (* reply *)
@@ -110,7 +120,8 @@ Print Assumptions C12_poll_transmissions.
 (* C12_poll_in_gap (whole poll).  If a poll transmits and ends waiting for a status reply from a - which by
    C12_poll_transmissions is what every GAP maintenance request looks like, from PassToken's GAP branch and from
    the post-claim scan alike - then a is strictly between TS and NS (cyclically), hence a <> TS and a <> NS, below
-   HSA whenever TS and the GAP cursor were; the wire is the status request TS -> a, no application was asked, the
+   HSA whenever TS and the GAP cursor were; the wire is the status request TS -> a, no application has sent anything
+   (before the F20 repair: none was asked; now the request goes out in the poll in which all declined), the
    ring view is unchanged.  For ALL (TS, NS, HSA, cursor): NS = TS, NS = TS-1, NS = HSA-1, TS = HSA-1, TS = 0 included. *)
 Theorem C12_poll_in_gap : forall (A : Type) (ops : app_ops A) (f : fdl) (now : Z) (pin : phy_in) (apps : list A)
     (f' : fdl) (o : phy_out) (apps' : list A) (calls : list call) (a : Z),
@@ -118,9 +129,13 @@ Theorem C12_poll_in_gap : forall (A : Type) (ops : app_ops A) (f : fdl) (now : Z
   tx o <> None /\ (f_state f' = AwaitStatusResponse a \/ f_state f' = ClaimToken (StepScanAwaitResponse a)) ->
   in_gap (ts f) (r_ns (f_ring f)) a /\ a <> ts f /\ a <> r_ns (f_ring f) /\
   ((0 <= ts f < p_hsa (f_p f) /\ (forall c, f_gap f = GapDoPoll c -> 0 <= c < p_hsa (f_p f))) -> 0 <= a < p_hsa (f_p f)) /\
-  tx o = Some (encode (TData (status_request_header a (ts f)) [])) /\ calls = [] /\
+  tx o = Some (encode (TData (status_request_header a (ts f)) [])) /\
+  (Forall (fun c => match c with CallTransmit _ _ (Some _) => False | _ => True end) calls /\
+   (calls <> [] -> kind_of (f_state f) = KUseToken \/ kind_of (f_state f) = KAwaitDataResponse)) /\
   f_ring f' = f_ring f /\ f_gap f' = GapDoPoll a /\
-  ((f_state f' = AwaitStatusResponse a /\ exists att, f_state f = PassToken true att) \/
+  ((f_state f' = AwaitStatusResponse a /\
+    ((exists att, f_state f = PassToken true att) \/
+     (kind_of (f_state f) = KUseToken \/ kind_of (f_state f) = KAwaitDataResponse))) \/
    (f_state f' = ClaimToken (StepScanAwaitResponse a) /\
     (f_state f = ClaimToken StepScan \/ exists a0, f_state f = ClaimToken (StepScanAwaitResponse a0)))).
 Proof. exact poll_gap_request_in_gap. Qed.
@@ -155,7 +170,10 @@ Theorem C12_one_per_visit : forall (A : Type) (ops : app_ops A) (ins : list (Z *
 Proof. exact one_gap_request_per_visit. Qed.
 Print Assumptions C12_one_per_visit.
 
-(* The GAP step of a token visit: a poll in PassToken{do_gap: Yes} either does nothing (PHY busy / pause not over) or
+(* The GAP step of a token visit.  Since the F20 repair the step is normally taken at the end of the last poll of the
+   token-use states (do_use_token ends in do_pass_token: C12_poll_transmissions / C12_gap_state_frame cover that poll);
+   the state PassToken{do_gap: Yes} is only left standing when that poll had to wait for the synchronisation pause.
+   A poll in PassToken{do_gap: Yes} either does nothing (PHY busy / pause not over) or
    performs exactly gap_visit_step (advance the cursor / count a rotation / restart the sweep), transmits the status
    request iff the new GAP state is DoPoll a, and passes the token otherwise. *)
 Theorem C12_visit_performs_gap_step : forall (A : Type) (ops : app_ops A) (f : fdl) (now : Z) (pin : phy_in)
@@ -171,13 +189,16 @@ Theorem C12_visit_performs_gap_step : forall (A : Type) (ops : app_ops A) (f : f
 Proof. exact pass_token_performs_gap_step. Qed.
 Print Assumptions C12_visit_performs_gap_step.
 
-(* ... and nothing else touches the GAP state: any poll leaves it unchanged except the GAP step above, the claim
-   phase (ClaimToken), a claim after the silence time-out and the reset after an address collision. *)
+(* ... and nothing else touches the GAP state: any poll leaves it unchanged except the GAP step above - taken from
+   PassToken{do_gap}, or (F20 repair) at the end of the poll of a token-use state that finds nothing (more) to send -,
+   the claim phase (ClaimToken), a claim after the silence time-out and the reset after an address collision. *)
 Theorem C12_gap_state_frame : forall (A : Type) (ops : app_ops A) (f : fdl) (now : Z) (pin : phy_in) (apps : list A)
     (f' : fdl) (o : phy_out) (apps' : list A) (calls : list call),
   poll ops f now pin apps = Ok (f', o, apps', calls) ->
   f_gap f' = f_gap f \/
-  (exists att, f_state f = PassToken true att /\ gap_visit_step f = Ok (f_gap f')) \/
+  (((exists att, f_state f = PassToken true att) \/
+    (kind_of (f_state f) = KUseToken \/ kind_of (f_state f) = KAwaitDataResponse)) /\
+   gap_visit_step f = Ok (f_gap f')) \/
   kind_of (f_state f) = KClaimToken \/
   (f_state f' = ClaimToken StepSecondToken /\ f_gap f' = GapDoPoll (ts f)) \/
   (f_state f' = Offline /\ f_conn f' = ConnOffline).
